@@ -137,6 +137,15 @@ func runC13(cfg config) {
 		items = append(items, item{"IVal (" + strings.Replace(decToCoq(q.n), "NDec", "VQty", 1) + " " + coqN(units.id(q.u)) + ")", "", qv, "Quantity"})
 	}
 	items = append(items, item{"IVal (VQty 15%Z (-1)%Z " + coqN(units.id("mg")) + ")", "", &dtpb.Quantity{Value: &dtpb.Decimal{Value: "1.5"}, Code: &dtpb.Code{Value: "mg"}}, "FHIR.Quantity"})
+	// elements that hold no convertible value although their type is a primitive or Quantity (valid FHIR: value is 0..1;
+	// or a text the conversion cannot read): they convert to nothing, like a complex element, and never to an error
+	for _, bad := range []struct {
+		kind string
+		env  any
+	}{{"Quantity without value", &dtpb.Quantity{Code: &dtpb.Code{Value: "mg"}, Unit: fstr("mg")}}, {"Quantity with non-numeric value", &dtpb.Quantity{Value: &dtpb.Decimal{Value: "n/a"}}},
+		{"SimpleQuantity without value", &dtpb.SimpleQuantity{Unit: fstr("mg")}}, {"Age without value", &dtpb.Age{Code: &dtpb.Code{Value: "a"}}}} {
+		items = append(items, item{"IVal (VComplex 9%N)", "", bad.env, bad.kind})
+	}
 	// strings: valid and near-valid renderings of every target type
 	strs := []string{"", "true", "TRUE", "t", "yes", "Y", "1", "1.0", "false", "F", "no", "n", "0", "0.0", "2", "1.00", "tru", " true",
 		"+1", "-1", "01", "2147483647", "2147483648", "-2147483648", "-2147483649", " 1", "1 ", "1e3", "0x10", "1_000", "9999999999999",
@@ -147,7 +156,7 @@ func runC13(cfg config) {
 		"2020-02-29t10:30", "2020-02-29T10:30:15+5:30", "T",
 		"10", "10:30", "10:30:15", "10:30:15.250", "24:00", "23:60", "10:30:60", "1:30", "@T10:30", "T10:30", "10:30:15.5", "10:30Z",
 		"5 'mg'", "5", "5 days", "5 day", "5mg", "+5 'mg'", "5.5 'kg/m2'", "5 'mg", "'mg'", "abc", "5 mg", "-2 'wk'", "5 ''", "1.0 '1'",
-		"é", "😀"}
+		"é", "😀", "yeſ", "YEſ", "falſe", "FalſE", "ſ", "tRuE", "ﬁ", "K", "1٠", "٠", "NO", "nO", "truE ", "ｔｒｕｅ"}
 	for i, s := range strs {
 		var env any = system.String(s)
 		kind := "String"
